@@ -110,6 +110,14 @@ func c11Scripts() []c11Script {
 			w.CreateEDS(c11EDS(nil))
 			c11Settle(w, 6)
 		}},
+		{"first-deployment-at-scale", func(w *World) {
+			// 45 nodes and a slow start that allows all of them at once: one sync with dozens of parallel creations
+			c11Nodes(w, 45)
+			ed := c11EDS(nil)
+			ed.Spec.Strategy.RollingUpdate.SlowStartAdditiveIncrease = kit.IS(100)
+			w.CreateEDS(ed)
+			c11Settle(w, 5)
+		}},
 		{"rolling-update", func(w *World) {
 			c11Nodes(w, 4)
 			w.CreateEDS(c11EDS(nil))
